@@ -29,6 +29,10 @@ type Script struct {
 	// WriteFault[i]: every write of the proxy on connection i fails (the peer is gone: EPIPE). Only for plans whose
 	// outcome does not depend on what the proxy manages to send (plain HTTP or garbage on the TLS port).
 	WriteFault []bool `json:"write_fault,omitempty"`
+	// StopFirst: the server's context is cancelled while the connections that the steps have not finished are
+	// still open (idle keep-alive, mid-handshake, mid-request, HTTP/2); what the shutdown closes must be counted
+	// once like everything else, and the rest when the clients leave afterwards
+	StopFirst bool `json:"stop_first,omitempty"`
 }
 
 var col = vstat.New("C16", "c16.metric")
@@ -73,7 +77,16 @@ func gen(t *rapid.T) Script {
 		s.WriteFault = append(s.WriteFault, (p.Kind == "plainhttp" || p.Kind == "garbage") && rapid.Bool().Draw(t, "wfault"))
 	}
 	started, finished := map[int]bool{}, map[int]bool{}
-	for len(finished) < n {
+	s.StopFirst = rapid.IntRange(0, 3).Draw(t, "stopfirst") == 0
+	if s.StopFirst {
+		// these stay open until the server's context is cancelled
+		for i := 0; i < n; i++ {
+			if rapid.IntRange(0, 2).Draw(t, "leave-open") > 0 {
+				finished[i] = true
+			}
+		}
+	}
+	for len(finished) < n || len(started) < n {
 		var ops []Step
 		for i := 0; i < n; i++ {
 			if !started[i] {
@@ -266,11 +279,28 @@ func exec(t *testing.T, s Script) *vstat.Violation {
 				break
 			}
 		}
+		if s.StopFirst && viol == nil {
+			open := 0
+			for i, r := range runs {
+				if r != nil && !ended[i] {
+					open++
+				}
+			}
+			p.Cancel()
+			time.Sleep(8 * time.Second) // net/http polls for idle connections and closes never-used ones after 5 s
+			if open > 0 {
+				classes["server-cancelled-with-connections-open"] = true
+			}
+			check(fmt.Sprintf("after the server's context was cancelled with %d connections open", open))
+		}
 		for _, r := range runs {
 			if r != nil {
 				r.Finish()
 				r.Raw.Close()
 			}
+		}
+		if s.StopFirst && viol == nil {
+			check("after the server's context was cancelled and all clients left")
 		}
 		if viol == nil {
 			rig.Wait()
